@@ -369,8 +369,19 @@ fn check_neg(st: &mut St, t: T, u: T, d: Duration) {
     let r = vh::catch(|| {
         let a = mk_sys(t);
         let b = mk_sys(u);
-        let _ = a + d;
-        let _ = a - d;
+        // every public operation, also on the values the operators hand back (a result can be pre-epoch too)
+        let _ = a.duration_since_unix_time();
+        let _ = b.duration_since_unix_time();
+        for r in [a + d, a - d, b + d, b - d].into_iter().flatten() {
+            let _ = r.duration_since_unix_time();
+            let _ = r.duration_since(a);
+            let _ = a.duration_since(r);
+            let _ = r - b;
+            let _ = r.cmp(&a);
+            if !vh::IS_MIRI {
+                let _ = r.elapsed();
+            }
+        }
         let _ = a - b;
         let _ = b - a;
         let _ = a.duration_since(b);
